@@ -149,17 +149,25 @@ func scenario(c cfg) vrt.Scenario {
 		case "trigger":
 			x.driveTrigger(ctx, cancel, mgr)
 		case "continuous":
+			udone := make(chan struct{})
 			vrt.GoNamed("users", func() {
 				users.NewWorker(c.workers)(ctx, ui.NewDiscardOutput(), mgr, options.RunOptions{Concurrency: c.workers})
+				vrt.Close(udone)
 			})
-			if c.runFor > 0 {
+			if c.gate == "barrier" {
+				// cancel only once every worker is inside a body at the same time; if
+				// they cannot all be, this wait never ends and the deadlock is the finding
+				need := int64(c.workers)
+				vrt.WaitUntil("all-workers-in", func() bool { return x.entered >= need })
+				cancel()
+			} else if c.runFor > 0 {
 				vtime.Sleep(c.runFor)
 				cancel()
 			}
 			if c.gate == "all" {
 				x.gateOpen.Store(true)
 			}
-			vrt.Recv(mgr.WaitForCompletion())
+			vrt.Recv(udone)
 		case "stages":
 			yaml := fmt.Sprintf(`scenario: s
 limits:
@@ -328,20 +336,19 @@ func oracle(c cfg, o *vrt.Outcome) {
 			}
 			requested := x.definite
 			if c.kind != "trigger" {
-				requested = 1 << 40
+				requested = 1 << 40 // users mode and the stages plan keep requesting
 			}
-			if c.kind == "stages" {
-				// constant 2/s for 1 s then users for 1 s with >=1 ms bodies: always reaches small limits
-				requested = 1 << 40
+			sure := requested >= int64(c.limit) && (c.kind != "stages" || o.Cost == 0)
+			// (under early timer expiry a stage may end before the limit is reached)
+			if (sure || x.limitSeen) && uint64(started) != c.limit {
+				o.Fail("C03/exactly-n", "short", fmt.Sprintf("limit %d (requested >= limit: %v, limit reported reached: %v): %d invocations", c.limit, sure, x.limitSeen, started))
 			}
-			if requested >= int64(c.limit) && uint64(started) != c.limit {
-				o.Fail("C03/exactly-n", "short", fmt.Sprintf("limit %d with %d requested: only %d invocations", c.limit, requested, started))
-			}
-			refused := requested > int64(c.limit) || c.kind != "trigger"
-			if x.limitSeen != refused && c.kind == "trigger" {
-				o.Fail("C03/limit-flag", fmt.Sprint(x.limitSeen), fmt.Sprintf("MaxIterationsReached()=%v but a request was refused=%v (limit %d, requested %d)", x.limitSeen, refused, c.limit, requested))
-			}
-			if c.kind != "trigger" && !x.limitSeen {
+			if c.kind == "trigger" {
+				refused := requested > int64(c.limit)
+				if x.limitSeen != refused {
+					o.Fail("C03/limit-flag", fmt.Sprint(x.limitSeen), fmt.Sprintf("MaxIterationsReached()=%v but a request was refused=%v (limit %d, requested %d)", x.limitSeen, refused, c.limit, requested))
+				}
+			} else if sure && !x.limitSeen {
 				o.Fail("C03/limit-flag", "false", "MaxIterationsReached() is false although the limit stopped the run")
 			}
 		}
@@ -460,48 +467,67 @@ func scenariosFor(tier string) []vrt.Scenario {
 			add(1000, cfg{kind: "trigger", workers: 1, ticks: q(2, 1), gate: "none", stop: "limit", limit: 1})
 		}
 	case "C03":
-		b := 2
-		if !quick {
-			b = 3
-		}
+		// one worker: b=2 (thorough 3); two workers: b=1 (thorough 2); three
+		// workers: delay-bounded d=2 (thorough 3) — with five threads the free
+		// switches at blocking points alone do not complete.
 		for _, wk := range []int{1, 2, 3} {
+			adder := func(c cfg) {
+				switch wk {
+				case 1:
+					add(map[bool]int{true: 2, false: 3}[quick], c)
+				case 2:
+					add(map[bool]int{true: 1, false: 2}[quick], c)
+				default:
+					addDelay(map[bool]int{true: 2, false: 3}[quick], c)
+				}
+			}
 			for _, n := range []uint64{1, 2, 3} {
-				if quick && (wk == 3 && n == 1) {
+				if quick && n == 3 {
 					continue
 				}
-				add(b, cfg{kind: "trigger", workers: wk, limit: n, ticks: q(int(n) + 2), gate: "none", stop: "limit"})
-				add(b, cfg{kind: "trigger", workers: wk, limit: n, ticks: q(int(n)), gate: "none", stop: "limit"})
-				add(b, cfg{kind: "continuous", workers: wk, limit: n, gate: "none"})
+				adder(cfg{kind: "trigger", workers: wk, limit: n, ticks: q(int(n) + 2), gate: "none", stop: "limit"})
+				adder(cfg{kind: "trigger", workers: wk, limit: n, ticks: q(int(n)), gate: "none", stop: "limit"})
+				adder(cfg{kind: "continuous", workers: wk, limit: n, gate: "none"})
 			}
-			add(b, cfg{kind: "trigger", workers: wk, limit: 4, ticks: q(3, 3), gate: "none", stop: "limit"})
-			add(b, cfg{kind: "trigger", workers: wk, limit: 3, ticks: q(2), gate: "none", stop: "limit"})
-			add(b, cfg{kind: "trigger", workers: wk, limit: 0, ticks: q(2, 1), gate: "none", stop: "cancel-q"})
+			adder(cfg{kind: "trigger", workers: wk, limit: 4, ticks: q(3, 3), gate: "none", stop: "limit"})
+			adder(cfg{kind: "trigger", workers: wk, limit: 3, ticks: q(2), gate: "none", stop: "limit"})
+			adder(cfg{kind: "trigger", workers: wk, limit: 0, ticks: q(2, 1), gate: "none", stop: "cancel-q"})
 		}
-		add(1, cfg{kind: "stages", workers: 2, limit: 3, bodyDur: time.Millisecond})
-		add(1, cfg{kind: "stages", workers: 1, limit: 5, bodyDur: time.Millisecond})
+		addDelay(2, cfg{kind: "trigger", workers: 2, limit: 2, ticks: q(3), gate: "none", stop: "limit"})
+		addDelay(2, cfg{kind: "continuous", workers: 2, limit: 2, gate: "none"})
+		add(1, cfg{kind: "stages", workers: 1, limit: 3, bodyDur: time.Millisecond})
+		addDelay(1, cfg{kind: "stages", workers: 2, limit: 3, bodyDur: time.Millisecond})
 		if !quick {
-			add(2, cfg{kind: "stages", workers: 2, limit: 1, bodyDur: time.Millisecond})
-			add(2, cfg{kind: "stages", workers: 2, limit: 4, bodyDur: time.Millisecond})
-			add(1000, cfg{kind: "continuous", workers: 2, limit: 2, gate: "none"})
-			add(1000, cfg{kind: "trigger", workers: 2, limit: 2, ticks: q(3), gate: "none", stop: "limit"})
-			add(1000, cfg{kind: "continuous", workers: 3, limit: 2, gate: "none"})
+			add(2, cfg{kind: "stages", workers: 1, limit: 1, bodyDur: time.Millisecond})
+			add(1, cfg{kind: "stages", workers: 2, limit: 4, bodyDur: time.Millisecond})
+			addDelay(3, cfg{kind: "stages", workers: 2, limit: 5, bodyDur: time.Millisecond})
+			add(1000, cfg{kind: "continuous", workers: 1, limit: 2, gate: "none"})
+			add(1000, cfg{kind: "trigger", workers: 1, limit: 2, ticks: q(3), gate: "none", stop: "limit"})
+			add(3, cfg{kind: "continuous", workers: 2, limit: 2, gate: "none"})
 		}
 	case "C04":
-		b := 2
-		if !quick {
-			b = 3
-		}
 		for _, wk := range []int{1, 2, 3} {
-			add(b, cfg{kind: "trigger", workers: wk, ticks: q(wk+1, 2*wk), gate: "yield", stop: "cancel-q"})
-			add(b, cfg{kind: "trigger", workers: wk, ticks: q(wk), gate: "barrier", stop: "cancel-q"})
-			add(b, cfg{kind: "trigger", workers: wk, ticks: im(wk, wk+1), gate: "yield", stop: "cancel-now"})
-			add(b, cfg{kind: "continuous", workers: wk, gate: "barrier", bodyDur: time.Millisecond, runFor: 3 * time.Millisecond})
-			add(b, cfg{kind: "continuous", workers: wk, gate: "yield", bodyDur: time.Millisecond, runFor: 2 * time.Millisecond})
+			adder := func(c cfg) {
+				switch wk {
+				case 1:
+					add(map[bool]int{true: 2, false: 3}[quick], c)
+				case 2:
+					add(map[bool]int{true: 1, false: 2}[quick], c)
+				default:
+					addDelay(map[bool]int{true: 2, false: 3}[quick], c)
+				}
+			}
+			adder(cfg{kind: "trigger", workers: wk, ticks: q(wk+1, 2*wk), gate: "yield", stop: "cancel-q"})
+			adder(cfg{kind: "trigger", workers: wk, ticks: q(wk), gate: "barrier", stop: "cancel-q"})
+			adder(cfg{kind: "trigger", workers: wk, ticks: im(wk, wk+1), gate: "yield", stop: "cancel-now"})
+			adder(cfg{kind: "continuous", workers: wk, gate: "barrier", bodyDur: time.Millisecond})
+			adder(cfg{kind: "continuous", workers: wk, gate: "yield", bodyDur: time.Millisecond, runFor: 2 * time.Millisecond})
 		}
+		addDelay(2, cfg{kind: "trigger", workers: 2, ticks: q(2, 3), gate: "barrier", stop: "cancel-q"})
 		if !quick {
-			add(1000, cfg{kind: "trigger", workers: 2, ticks: q(2), gate: "barrier", stop: "cancel-q"})
-			add(1000, cfg{kind: "trigger", workers: 2, ticks: q(3), gate: "yield", stop: "cancel-q"})
-			add(3, cfg{kind: "trigger", workers: 3, ticks: q(3, 3), gate: "barrier", stop: "cancel-q"})
+			add(1000, cfg{kind: "trigger", workers: 1, ticks: q(2), gate: "yield", stop: "cancel-q"})
+			add(3, cfg{kind: "trigger", workers: 2, ticks: q(2), gate: "barrier", stop: "cancel-q"})
+			addDelay(3, cfg{kind: "trigger", workers: 3, ticks: q(3, 3), gate: "barrier", stop: "cancel-q"})
 		}
 	}
 	return out
